@@ -272,7 +272,7 @@ Definition k_metrics : bytes := [109;101;116;114;105;99;115].
 Definition k_fields_mask : bytes := [102;105;101;108;100;115;95;109;97;115;107].
 
 (* sizeof: DictFieldStringStringBytes 48, float64 8, int64 8, [2]float64 16, MetricBytes 144;
-   least encoded size of an element: tag 2 (two empty strs), float64 5 (a float32), int64 1, centroid 11, metric 1 *)
+   least encoded size msgpackCheckCount assumes per element: tag 2, float64 1, int64 1, centroid 3, metric 1 *)
 Definition mp_field (v : variant) (key : bytes) (m : dmetric) (b : bytes) : res (dmetric * bytes) :=
   if bytes_eqb key k_name then do '(s, b1) <- mp_str b; Ok (set_name s m, b1)
   else if bytes_eqb key k_tags then
@@ -281,13 +281,13 @@ Definition mp_field (v : variant) (key : bytes) (m : dmetric) (b : bytes) : res 
   else if bytes_eqb key k_counter then do '(x, b1) <- mp_f64 b; Ok (set_counter x m, b1)
   else if bytes_eqb key k_ts then do '(x, b1) <- mp_u32 b; Ok (set_ts x m, b1)
   else if bytes_eqb key k_value then
-    do '(n, b1) <- mp_array_header b; do _ <- mp_alloc v n 8 5 b1;
+    do '(n, b1) <- mp_array_header b; do _ <- mp_alloc v n 8 1 b1;
     do '(xs, b2) <- mp_repeat mp_f64 (rep_fuel b1) n b1; Ok (set_value xs m, b2)
   else if bytes_eqb key k_unique then
     do '(n, b1) <- mp_array_header b; do _ <- mp_alloc v n 8 1 b1;
     do '(xs, b2) <- mp_repeat mp_i64 (rep_fuel b1) n b1; Ok (set_unique xs m, b2)
   else if bytes_eqb key k_histogram then
-    do '(n, b1) <- mp_array_header b; do _ <- mp_alloc v n 16 11 b1;
+    do '(n, b1) <- mp_array_header b; do _ <- mp_alloc v n 16 3 b1;
     do '(xs, b2) <- mp_repeat mp_centroid (rep_fuel b1) n b1; Ok (set_hist xs m, b2)
   else do b1 <- mp_skip_top b; Ok (m, b1).
 
@@ -756,6 +756,19 @@ Definition enc_pb_metric (packed : bool) (m : metric) : bytes :=
   ++ oenc (m_unique m) (fun l => if packed then pbe_len 6 (flat_map (fun x => pbe_varint (u64 x)) l) else flat_map (fun x => pbe_tag 6 0 ++ pbe_varint (u64 x)) l)
   ++ oenc (m_hist m) (fun l => flat_map (fun p => pbe_len 7 (pbe_tag 1 1 ++ le_enc 8 (fst p) ++ pbe_tag 2 1 ++ le_enc 8 (snd p))) l).
 Definition enc_pb (packed : bool) (b : list metric) : bytes := flat_map (fun m => pbe_len 13337 (enc_pb_metric packed m)) b.
+
+(* proto3 as C++/Java/protocute write it: fields holding the default value (empty string, 0, empty list) are omitted *)
+Definition pbe_str (fn : Z) (s : bytes) : bytes := match s with [] => [] | _ => pbe_len fn s end.
+Definition pbe_f64nz (fn x : Z) : bytes := if x =? 0 then [] else pbe_tag fn 1 ++ le_enc 8 x.
+Definition enc_pb_min_metric (m : metric) : bytes :=
+  pbe_str 1 (m_name m)
+  ++ flat_map (fun kv => pbe_len 2 (pbe_str 1 (fst kv) ++ pbe_str 2 (snd kv))) (m_tags m)
+  ++ oenc (m_counter m) (pbe_f64nz 3)
+  ++ oenc (m_ts m) (fun t => if t =? 0 then [] else pbe_tag 4 0 ++ pbe_varint t)
+  ++ oenc (m_value m) (fun l => match l with [] => [] | _ => pbe_len 5 (flat_map (le_enc 8) l) end)
+  ++ oenc (m_unique m) (fun l => match l with [] => [] | _ => pbe_len 6 (flat_map (fun x => pbe_varint (u64 x)) l) end)
+  ++ oenc (m_hist m) (fun l => flat_map (fun p => pbe_len 7 (pbe_f64nz 1 (fst p) ++ pbe_f64nz 2 (snd p))) l).
+Definition enc_pb_min (b : list metric) : bytes := flat_map (fun m => pbe_len 13337 (enc_pb_min_metric m)) b.
 
 (* --- JSON: the tree a client serialises; numbers through a printer given as parameter --- *)
 Section JsonEnc.
